@@ -82,6 +82,7 @@ type harness struct {
 	images    []crashImage
 	imageAt   map[int64]bool
 	persistIv time.Duration
+	asofRetry bool          // the history walk met a persist in progress
 	dbMu      simsync.Mutex // held by the concurrent asof reader while it uses the database, and by restarts
 	asofLog   []asofQuery
 	events    []map[string]map[string]string // model after each successful state changing operation
